@@ -21,13 +21,25 @@ def parseKV (sep : String) (s : String) : Option (Nat × Nat) :=
     | _, _ => none
   | _ => none
 
+/-- values are 8-byte big-endian numbers (< 2^64) or the empty byte string, written `E` and
+represented in the model by the value 2^64 (the model only compares values and parses balances,
+and balances are never empty) -/
+def emptyVal : Nat := 18446744073709551616
+
+def parseKVal (sep : String) (s : String) : Option (Nat × Nat) :=
+  match s.splitOn sep with
+  | [a, b] => match a.toNat?, (if b == "E" then some emptyVal else b.toNat?) with
+    | some x, some y => some (x, y)
+    | _, _ => none
+  | _ => none
+
 def parseOp (s : String) : Option Op :=
   if s == "f" then some .fail
   else
     let body := (s.drop 1).toString
     if s.startsWith "g" then body.toNat?.map Op.get
     else if s.startsWith "d" then body.toNat?.map Op.del
-    else if s.startsWith "p" then (parseKV "=" body).map (fun (k, v) => Op.put k v)
+    else if s.startsWith "p" then (parseKVal "=" body).map (fun (k, v) => Op.put k v)
     else if s.startsWith "P" then body.toNat?.map Op.putBig
     else none
 
@@ -49,7 +61,7 @@ def parseTx (id sp pre units keys prog : String) (size : String := "0") : Option
   | _, _, _, _, _, _ => none
 
 def showOpt : Option Nat → String
-  | some v => toString v
+  | some v => if v ≥ emptyVal then "E" else toString v
   | none => "_"
 
 def showAct (a : List (Option Val)) : String :=
